@@ -4,6 +4,7 @@
 -/
 import YashModel.Variable.RoSteps
 import YashModel.Variable.Exec
+import YashModel.Variable.Script
 namespace YashModel.Variable
 
 theorem SSet.run_append (X : SSet) (a b : List Op) : SSet.run X (a ++ b) = SSet.run (SSet.run X a) b := by
@@ -298,5 +299,73 @@ theorem abs_ne_nil {s : VariableSet} (h : Norm s) : abs s ≠ [] := by
   rw [e] at this
   have := h.pos
   simp at *; omega
+
+/-! ### the `typeset` option family never touches a read-only variable -/
+
+/-- normalised and with the read-only invariant -/
+def Good (s : VariableSet) : Prop := Norm s ∧ ShadowInv s
+
+theorem step_good {s : VariableSet} (h : Good s) (op : Op) : Good (s.step op).1 :=
+  ⟨(step_abs h.1 op).2.2, step_shadow h.1 h.2 op⟩
+
+theorem runOps_keeps (ops : List Op) (s : VariableSet) (h : Good s) (hp : ∀ op ∈ ops, op ≠ Op.pop) :
+    KeepsAll s (runOps ifaceM s ops).1 ∧ Good (runOps ifaceM s ops).1 := by
+  induction ops generalizing s with
+  | nil => exact ⟨keepsAll_refl s, h⟩
+  | cons op t ih =>
+    have hk := step_keeps h.1 h.2 op (hp op (by simp))
+    have hg := step_good h op
+    have hstep : ifaceM.step s op = s.step op := rfl
+    simp only [runOps, hstep]
+    cases hr : s.step op with
+    | mk s' r =>
+      rw [hr] at hk hg
+      cases r with
+      | readOnly l => exact ⟨hk, hg⟩
+      | done => have := ih s' hg (fun o ho => hp o (by simp [ho])); exact ⟨keepsAll_trans hk this.1, this.2⟩
+      | noVolatile => have := ih s' hg (fun o ho => hp o (by simp [ho])); exact ⟨keepsAll_trans hk this.1, this.2⟩
+      | assigned a b => have := ih s' hg (fun o ho => hp o (by simp [ho])); exact ⟨keepsAll_trans hk this.1, this.2⟩
+      | unset a => have := ih s' hg (fun o ho => hp o (by simp [ho])); exact ⟨keepsAll_trans hk this.1, this.2⟩
+
+theorem applyAttrs_keeps (n : Name) (sc : Scope) (attrs : List String) (s : VariableSet) (h : Good s) :
+    KeepsAll s (applyAttrs ifaceM n sc attrs s) ∧ Good (applyAttrs ifaceM n sc attrs s) := by
+  induction attrs generalizing s with
+  | nil => exact ⟨keepsAll_refl s, h⟩
+  | cons a rest ih =>
+    have hstep : ∀ op, ifaceM.step s op = s.step op := fun _ => rfl
+    have one : ∀ op : Op, op ≠ Op.pop →
+        KeepsAll s (applyAttrs ifaceM n sc rest (s.step op).1) ∧ Good (applyAttrs ifaceM n sc rest (s.step op).1) := by
+      intro op hop
+      have := ih (s.step op).1 (step_good h op)
+      exact ⟨keepsAll_trans (step_keeps h.1 h.2 op hop) this.1, this.2⟩
+    simp only [applyAttrs, hstep]
+    split
+    · exact one _ (by simp)
+    · split
+      · split
+        · exact ⟨keepsAll_refl s, h⟩
+        · exact ih s h
+      · split
+        · exact one _ (by simp)
+        · split
+          · exact one _ (by simp)
+          · exact ih s h
+
+theorem typesetField_keeps (sc : Scope) (attrs : List String) (s : VariableSet) (t : String) (h : Good s) :
+    KeepsAll s (typesetField ifaceM sc attrs s t) ∧ Good (typesetField ifaceM sc attrs s t) := by
+  have hops : ∀ op ∈ operandOps sc t, op ≠ Op.pop := by
+    intro op hop
+    unfold operandOps at hop
+    split at hop <;> simp at hop <;> subst hop <;> simp
+  have h1 := runOps_keeps (operandOps sc t) s h hops
+  unfold typesetField
+  cases hr : runOps ifaceM s (operandOps sc t) with
+  | mk s1 b =>
+    rw [hr] at h1
+    cases b with
+    | true => exact h1
+    | false =>
+      have h2 := applyAttrs_keeps (operandName t) sc attrs s1 h1.2
+      exact ⟨keepsAll_trans h1.1 h2.1, h2.2⟩
 
 end YashModel.Variable
